@@ -655,7 +655,7 @@ def generate(repo, out_dir, write):
                 parts.append(chacha_state(repo))
             parts.append("end Urandom.Generated.Scalar\n")
             text = "\n".join(parts)
-        except (TranslateError, KeyError, IndexError, ValueError, StopIteration) as e:
+        except Exception as e:          # whatever goes wrong while reading an unfamiliar source: no definitions, the obligations of this group do not build
             msg = ("%s: %s" % (type(e).__name__, e)).replace("-/", "- /")
             text = ("/- tools/extract_scalar.py could not translate the current source: %s -/\n"
                     "namespace Urandom.Generated.Scalar\ndef translation_failed_%s : Nat := translation_of_the_current_source_failed\nend Urandom.Generated.Scalar\n" % (msg, fname))
